@@ -23,6 +23,21 @@ namespace pv_hooks
     }
 } // namespace pv_hooks
 
+#include <sys/socket.h>
+#include <sys/types.h>
+
+namespace pv_hooks
+{
+    // socket write indirection for src/common/transport.cc: a test can cap the accepted length or
+    // return would-block for chosen calls
+    inline ssize_t (*send_fn)(int fd, const void* buf, size_t len, int flags) = nullptr;
+
+    inline ssize_t hooked_send(int fd, const void* buf, size_t len, int flags)
+    {
+        return send_fn ? send_fn(fd, buf, len, flags) : ::send(fd, buf, len, flags);
+    }
+} // namespace pv_hooks
+
 #define PV_YIELD(tag) ::pv_hooks::yield(tag)
 // placed before acquiring a mutex: a thread that would block hands the baton back instead
 #define PV_LOCK(m, tag)                    \
